@@ -783,6 +783,14 @@ class Engine:
 
     def binop(self, op, a, b, st, node=None):
         if isinstance(a, VInt) and isinstance(b, VInt):
+            if z3.is_int_value(a.t) and z3.is_int_value(b.t):
+                x, y = a.t.as_long(), b.t.as_long()
+                if isinstance(op, ast.Add):
+                    return VInt(x + y)
+                if isinstance(op, ast.Sub):
+                    return VInt(x - y)
+                if isinstance(op, ast.Mult):
+                    return VInt(x * y)
             if isinstance(op, ast.Add):
                 return VInt(a.t + b.t)
             if isinstance(op, ast.Sub):
@@ -837,6 +845,11 @@ class Engine:
             return neg(self.v_eq(a, b, st))
         if isinstance(op, (ast.Lt, ast.LtE, ast.Gt, ast.GtE)):
             if isinstance(a, VInt) and isinstance(b, VInt):
+                if z3.is_int_value(a.t) and z3.is_int_value(b.t):
+                    x, y = a.t.as_long(), b.t.as_long()
+                    return z3.BoolVal({ast.Lt: x < y, ast.LtE: x <= y,
+                                       ast.Gt: x > y, ast.GtE: x >= y}[
+                                           type(op)])
                 return {ast.Lt: a.t < b.t, ast.LtE: a.t <= b.t,
                         ast.Gt: a.t > b.t, ast.GtE: a.t >= b.t}[type(op)]
         if isinstance(op, (ast.In, ast.NotIn)):
